@@ -635,7 +635,8 @@ func (generator *ConverterGenerator) guardForAssignments(valuesRootPath ast.Path
 
 		// For strings: ensure they're not empty
 		// TODO: deal with datetime strings
-		if assignmentType.IsScalar() && assignmentType.AsScalar().ScalarKind == ast.KindString && !assignmentType.HasHint(ast.HintStringFormatDateTime) {
+		// (a path that can hold null starts from null in a new builder: "" is a value to convert there)
+		if assignmentType.IsScalar() && assignmentType.AsScalar().ScalarKind == ast.KindString && !assignmentType.HasHint(ast.HintStringFormatDateTime) && !generator.nullableTypes.TypeIsNullable(assignmentType) {
 			guard := MappingGuard{
 				Path:  valuesRootPath.Append(assignment.Path),
 				Op:    ast.NotEqualOp,
